@@ -125,6 +125,21 @@ Theorem C18_good_closed : forall t, good t = true -> closed t = true.
 Proof. exact good_closed. Qed.
 Print Assumptions C18_good_closed.
 
+(* --- Mapping equality is equality of finite maps: same key set and equal values; a missing key is NOT a key whose
+       value is None --- *)
+Theorem C18_eq_is_finite_map_eq : forall g1 g2 ka kb, nodupb (map fst ka) = true -> nodupb (map fst kb) = true ->
+  (py_eq (TMap g1 ka) (TMap g2 kb) = true <->
+   (forall k, amem k ka = amem k kb) /\ (forall k x, aget k ka = Some x -> exists y, aget k kb = Some y /\ py_eq x y = true)).
+Proof. exact py_eq_map_iff. Qed.
+Print Assumptions C18_eq_is_finite_map_eq.
+
+Example C18_witness_none_key :
+  py_eq (TMap TgMeta [(bs "id"%bs, TStr (bs "s1"%bs)); (bs "name"%bs, TNull)])
+        (TMap TgDict [(bs "id"%bs, TStr (bs "s1"%bs)); (bs "gene"%bs, TNull)]) = false /\
+  py_eq (TMap TgAttr [(bs "a"%bs, TNull)]) (TMap TgAttr [(bs "b"%bs, TNull)]) = false /\
+  py_eq (TMap TgAttr [(bs "a"%bs, TNull)]) (TMap TgDict [(bs "a"%bs, TNull)]) = true.
+Proof. exact none_key_witness. Qed.
+
 (* ================= heap model (lib/C18_Heap.v): aliasing, copy(), frame ================= *)
 
 (* frame: a write to a cell that x cannot reach changes nothing observable through x *)
@@ -265,6 +280,11 @@ Print Assumptions C18_refine_append.
 Theorem C18_tree_shaped_nodup : forall n h v, tree_shaped n h v = true -> NoDup (reach_list n h v).
 Proof. exact (fun n h v => nodup_nat_NoDup (reach_list n h v)). Qed.
 Print Assumptions C18_tree_shaped_nodup.
+
+(* in-place operations never re-bind a variable: the receiver keeps its address (identity), all references see the update *)
+Theorem C18_inplace_keeps_receiver : forall o s s' r, inplace_hop o = true -> hop_step o s = inl (s', r) -> snd s' = snd s.
+Proof. exact inplace_keeps_vars. Qed.
+Print Assumptions C18_inplace_keeps_receiver.
 
 (* non-vacuity: a concrete heap satisfies the hypotheses and copy() succeeds on it; a concrete program shows that
    copy() separates (r0.a is not r1.a, editing r1.a.b leaves r0) while Meta(r0) shares nested objects (r0.a is r2.a) *)
